@@ -16,6 +16,7 @@ import (
 // SSHServer is an in-process SSH server on loopback that records what clients present.
 type SSHServer struct {
 	ln      net.Listener
+	Host    string // the loopback address the server listens on
 	HostKey ssh.Signer
 	Port    int
 
@@ -39,7 +40,10 @@ type SSHServer struct {
 }
 
 // NewSSHServer starts a server with a fresh ed25519 host key.
-func NewSSHServer() (*SSHServer, error) {
+func NewSSHServer() (*SSHServer, error) { return NewSSHServerOn("127.0.0.1") }
+
+// NewSSHServerOn starts a server on the given loopback address ("127.0.0.1", "::1").
+func NewSSHServerOn(host string) (*SSHServer, error) {
 	_, priv, err := ed25519.GenerateKey(rand.Reader)
 	if err != nil {
 		return nil, err
@@ -50,12 +54,12 @@ func NewSSHServer() (*SSHServer, error) {
 		return nil, err
 	}
 
-	ln, err := net.Listen("tcp", "127.0.0.1:0")
+	ln, err := net.Listen("tcp", net.JoinHostPort(host, "0"))
 	if err != nil {
 		return nil, err
 	}
 
-	s := &SSHServer{ln: ln, HostKey: signer, Port: ln.Addr().(*net.TCPAddr).Port}
+	s := &SSHServer{ln: ln, HostKey: signer, Port: ln.Addr().(*net.TCPAddr).Port, Host: host}
 
 	go s.serve()
 
@@ -64,7 +68,7 @@ func NewSSHServer() (*SSHServer, error) {
 
 // KnownHostsLine renders the known_hosts entry for this server.
 func (s *SSHServer) KnownHostsLine() string {
-	return fmt.Sprintf("[127.0.0.1]:%d %s", s.Port, bytes.TrimSpace(ssh.MarshalAuthorizedKey(s.HostKey.PublicKey())))
+	return fmt.Sprintf("[%s]:%d %s", s.Host, s.Port, bytes.TrimSpace(ssh.MarshalAuthorizedKey(s.HostKey.PublicKey())))
 }
 
 // Close stops the server and drops all connections.
